@@ -309,8 +309,8 @@ func (o *c03Oracle) checkLive(when string) {
 				break
 			}
 			if (idx-g0+1)*w.fpp > o.emitted {
-				o.fail("liveness", "liveness:arrived-not-emitted", "%sgroup %d packet %d reached the source %v ago (after the last fault) and has not been emitted; %d frames emitted in %d blocks, first emitted packet %d; queue lengths %v",
-					when, g.ord, idx, now.Sub(g.delivAt[idx]), o.emitted, o.blocks, g0, o.queueLens())
+				o.fail("liveness", "liveness:arrived-not-emitted", "%sgroup %d packet %d reached the source %v ago (after the last fault) and has not been emitted; %d frames emitted in %d blocks, first emitted packet %d; queue lengths %v; virtual CPU per step %v, bound %v",
+					when, g.ord, idx, now.Sub(g.delivAt[idx]), o.emitted, o.blocks, g0, o.queueLens(), o.w.delta, o.liveBound())
 			}
 		}
 	}
@@ -319,6 +319,13 @@ func (o *c03Oracle) checkLive(when string) {
 // liveBound is the liveness bound: 1 s plus the virtual CPU time of 1500 scheduler steps,
 // at most 4 s (the source's own watchdogs fire after 5 s without data).
 func (o *c03Oracle) liveBound() time.Duration {
+	if o.w.delta > 200*time.Microsecond {
+		// With milliseconds of virtual CPU per scheduling step one read cycle of a many-channel source
+		// costs more simulated time than a reader tick: the simulated machine is saturated and falls
+		// behind without bound. Latency means nothing there (the property states none); the content,
+		// alignment and numbering rules still apply to everything that comes out.
+		return time.Hour
+	}
 	b := time.Second + 1500*o.w.delta
 	if b > 4*time.Second {
 		b = 4 * time.Second
@@ -389,11 +396,15 @@ func (o *c03Oracle) finalChecks() (g0 int) {
 // abacoSimRun drives one run: start, pump until the stream has ended and one more second
 // has passed, final checks.
 func abacoSimRun(w *abacoSimWorld, o *c03Oracle) (g0 int) {
-	limit := time.Duration(w.npackets)*w.period + 12*time.Second
+	limit := time.Duration(w.npackets)*w.period + 12*time.Second + 40000*w.delta
 	began := time.Now()
 	selfEnded := w.pump(o.onBlock, func() bool {
 		o.checkLive("")
-		if w.allArrived() && time.Since(w.lastDeliv) > o.liveBound()+100*time.Millisecond {
+		settle := o.liveBound()
+		if cap := 4 * time.Second; settle > cap { // the source's own watchdogs fire after 5 s without data
+			settle = cap
+		}
+		if w.allArrived() && time.Since(w.lastDeliv) > settle+100*time.Millisecond {
 			return true
 		}
 		if time.Since(began) > limit {
